@@ -158,6 +158,13 @@ func StepWorkflowPaths(wf *workflow.Workflow) map[string]string {
 // SubworkflowCache creates a file cache of the sub-workflows referenced
 // in this workflow using rootDir as a context.
 func SubworkflowCache(wf *workflow.Workflow, rootDir string, converter workflow.YAMLConverter, flowCaches []loadfile.FileCache) (loadfile.FileCache, error) {
+	return collectSubworkflows(wf, rootDir, converter, flowCaches, map[string]struct{}{})
+}
+
+// collectSubworkflows does the work of SubworkflowCache; visiting holds the sub-workflow files on the
+// current reference chain so that sub-workflows referencing each other are reported instead of
+// being followed forever.
+func collectSubworkflows(wf *workflow.Workflow, rootDir string, converter workflow.YAMLConverter, flowCaches []loadfile.FileCache, visiting map[string]struct{}) (loadfile.FileCache, error) {
 	stepWorkflowPaths := StepWorkflowPaths(wf)
 	if len(stepWorkflowPaths) == 0 {
 		return nil, nil
@@ -171,11 +178,16 @@ func SubworkflowCache(wf *workflow.Workflow, rootDir string, converter workflow.
 		return nil, err
 	}
 	for _, ctxFile := range subworkflowCache.Files() {
+		if _, cyclic := visiting[ctxFile.AbsolutePath]; cyclic {
+			return nil, fmt.Errorf("sub-workflow %s is referenced from within itself", ctxFile.ID)
+		}
 		subwf, err := converter.FromYAML(ctxFile.Content)
 		if err != nil {
 			return nil, err
 		}
-		flowCache, err := SubworkflowCache(subwf, rootDir, converter, flowCaches)
+		visiting[ctxFile.AbsolutePath] = struct{}{}
+		flowCache, err := collectSubworkflows(subwf, rootDir, converter, flowCaches, visiting)
+		delete(visiting, ctxFile.AbsolutePath)
 		if err != nil {
 			return nil, err
 		}
